@@ -1,10 +1,10 @@
-(** TierBridgeDefs.v — definitions for the Tier-A / Tier-B bridge (TierBridge.v).  No proofs.
+(** TierBridgeDefs.v — definitions for the Tier-A / Tier-B bridge (TierBridgeLemmas.v).  No proofs.
 
     1. The value-level primitives AS THE TIER-B MODELS USE THEM.  MergeDefs.v names them
        ([mp_DetachItemFromObject], [mp_DeleteItemFromObject], [mp_AddItemToObject], [mp_dup_rec],
        [mp_sort_members]); PatchDefs.v writes most of them inline in [detach_path] and [finish_add] (marked
        there by comments with the name of the C function).  The [v_*] functions below are those inline
-       expressions, verbatim; TierBridge.v proves ([detach_path_uses], [finish_add_uses]) that the two
+       expressions, verbatim; TierBridgeLemmas.v proves ([detach_path_uses], [finish_add_uses]) that the two
        functions of PatchDefs.v ARE these expressions.
     2. The position of the member a by-key lookup finds ([key_pos]): the common refinement of
        [CoreSpec.find_key_cs/_ci] (which return the identity of the member) and
